@@ -101,6 +101,8 @@ def cnf_to_json(formula: List[And]) -> List[List[int]]:
                 or_list.append(l)
             elif isinstance(o, int):
                 or_list.append([o])
+            elif isinstance(o, Not) and isinstance(o.c, int):
+                or_list.append([-o.c])
             else:
                 raise ValueError("Value was not Or tuple or variable!")
     return or_list
@@ -176,8 +178,10 @@ def __distribute_ors_switching(f: Formula, fresh: int) -> FormulaAndFresh:
             else:
                 (new_formula, new_fresh) = __switching_combination(clauses, new_fresh)
                 return __distribute_ors_switching(new_formula, new_fresh)
-        else:
+        elif len(clauses) == 1:
             return (clauses[0], new_fresh)
+        else:
+            return (f, fresh)
     elif isinstance(f, Not):
         assert isinstance(f.c, int)
         return (f, fresh)
@@ -257,7 +261,7 @@ def __order_clauses(c: Formula) -> int:
     if isinstance(c, And) or isinstance(c, Or):
         return 0
     elif isinstance(c, Not):
-        return c.c
+        return c.c if isinstance(c.c, int) else 0
     else:
         return c
 
